@@ -21,9 +21,9 @@ CHECKS = {
                 text="Bounded differential symbolic check of the real channel-file classes against a position+slice reference file."),
     "C20": dict(cat="other", ref="DESIGN.md §4 C20", technique="CrossHair symbolic execution of XSpec parsing/printing/equality and Group registration/lookup/allocate_id with symbolic values and ids",
                 text="Bounded symbolic check of spec parsing (catalogue keys x symbolic values, duplicates of either kind) and of the group container/id-allocation code (symbolic ids); the concurrent-allocation part of the statement is outside this check."),
-    "C08": dict(cat="other", ref="DESIGN.md §4 C08", technique="CrossHair symbolic execution of Message.to_io/from_io over the real Popen2IO/SocketIO/ProxyIO adapters with symbolic message fields and a symbolic chunking script",
-                text="Bounded symbolic check of framing under arbitrary chunking on all three transports' read/write adapters; the concurrent-sender atomicity part of the statement is not decided by this check (see level_note).",
-                note=E1_NOTE + "; frame atomicity under concurrent senders needs the schedule engine (E2) and is outside this check"),
+    "C08": dict(cat="other", ref="DESIGN.md §4 C08, §11", technique="E1: CrossHair symbolic execution of Message.to_io/from_io over the real Popen2IO/SocketIO/ProxyIO adapters with symbolic message fields and chunking; E2: bounded model checking (z3) of concurrent BaseGateway._send callers down to the low-level write contract, counterexamples replayed on the real SocketIO/Popen2IO",
+                text="Bounded symbolic check of framing under arbitrary chunking on all transports' adapters, plus bounded model checking over all schedules of 2-3 concurrent senders that the wire is a concatenation of whole frames (socket.sendall modelled as non-atomic partial sends).",
+                note=E1_NOTE + "; E2 part trusts the translator (validated per run), the sendall/BufferedWriter contracts stated in the evidence and z3"),
     "C04": dict(cat="other", ref="DESIGN.md §4 C04", technique="CrossHair symbolic execution of the real receiver-thread body over a stream cut at a symbolic byte offset with symbolic read chunking (Popen2IO and SocketIO)",
                 text="Bounded symbolic check over every cut offset of enumerated frame histories: delivered items are exactly the complete frames, then EOFError everywhere, endmarker once, gateway refuses further use. Several concurrently blocked waiters (schedules) are outside this check.",
                 note=E1_NOTE + "; the receiver thread body is executed synchronously, so interleavings with blocked user threads are not explored here"),
